@@ -405,6 +405,7 @@ def run_circuit(case):
                 picks[node] = pk
             res, pj = eq_probes(eqs, keys, unknown_names)
             out['nodal'] = {'unknowns': keys, 'equations': res, 'probes': pj, 'picks': picks}
+            out['nodal']['matrix'] = matrix_form(na, unknown_names, klabel, sub, cplx)
         except Exception as e:
             import traceback
             out['nodal_error'] = type(e).__name__ + ': ' + str(e)[:200] + traceback.format_exc()[-300:]
@@ -436,6 +437,7 @@ def run_circuit(case):
             res, pj = eq_probes(eqs, keys, unknown_names)
             out['mesh'] = {'loops': [[gn[str(x)] for x in l] for l in loops], 'loop_names': loops, 'edges': edges,
                            'equations': res, 'probes': pj, 'planar': bool(la.cg.is_planar)}
+            out['mesh']['matrix'] = matrix_form(la, unknown_names, klabel, sub, cplx)
         except Exception as e:
             import traceback
             out['mesh_error'] = type(e).__name__ + ': ' + str(e)[:200] + traceback.format_exc()[-300:]
@@ -474,6 +476,72 @@ def mat_rs(M):
     return [[rs(M[i, j]) for j in range(M.shape[1])] for i in range(M.shape[0])]
 
 
+def fname(x):
+    """name of the unknown function behind an entry such as x_0(t), Derivative(x_0(t), t), x_0(n + 1), v_C1(t)"""
+    x = sp.sympify(x)
+    if isinstance(x, sp.Derivative):
+        return 'D:' + fname(x.args[0])
+    if isinstance(x, AppliedUndef):
+        arg = x.args[0]
+        return ('N:' if (arg.is_Add and len(arg.free_symbols) == 1 and (arg - list(arg.free_symbols)[0]) == 1) else '') + x.func.__name__
+    return str(x)
+
+
+def ss_equation_structure(e):
+    """printed state / output equation -> names on the left, and on the right the list of (matrix, vector names) products"""
+    lhs = unwrap(e.lhs)
+    rhs = unwrap(e.rhs)
+    out = {'lhs': [fname(v) for v in sp.Matrix(lhs)]}
+    terms = []
+    adds = rhs.args if isinstance(rhs, sp.MatAdd) else [rhs]
+    for t in adds:
+        if not isinstance(t, sp.MatMul) or len(t.args) != 2:
+            return {'error': 'unexpected term %s' % type(t).__name__}
+        M, v = sp.Matrix(t.args[0]), sp.Matrix(t.args[1])
+        terms.append({'M': [[rs(M[i, j]) for j in range(M.shape[1])] for i in range(M.shape[0])], 'v': [fname(x) for x in v]})
+    out['terms'] = terms
+    return out
+
+
+def ss_printed(ss):
+    out = {}
+    for nm, f in (('state', ss.state_equations), ('output', ss.output_equations)):
+        try:
+            out[nm] = ss_equation_structure(f())
+        except Exception as e:
+            out[nm] = {'error': type(e).__name__ + ': ' + str(e)[:100]}
+    out['xn'] = [fname(v) for v in sp.Matrix(ss.x)]
+    out['un'] = [fname(v) for v in sp.Matrix(ss.u)] if all(isinstance(sp.sympify(v), AppliedUndef) for v in sp.Matrix(ss.u)) else None
+    out['yn'] = [fname(v) for v in sp.Matrix(ss.y)]
+    return out
+
+
+def matrix_form(an, unknown_names, klabel, sub, cplx):
+    """the A y = b form that NodalAnalysis / LoopAnalysis derive from their own equations (_analyse:
+    sympy.linear_eq_to_matrix): A, b at the point, and which unknown sits at which position of y"""
+    if klabel in ('t', 'time', 'super'):
+        try:
+            an.A
+            return {'error': 'no ValueError for a time-domain kind'}
+        except ValueError:
+            return {'time_domain': True}
+        except Exception as e:
+            return {'error': type(e).__name__ + ': ' + str(e)[:100]}
+    try:
+        A = sp.Matrix(an.A)
+        b = sp.Matrix(an.b)
+        ys = [sp.sympify(getattr(x, 'sympy', x)) for x in an.y]
+        val = (lambda x: cplx(sp.sympify(x).subs({sy: sub[sy.name] for sy in sp.sympify(x).free_symbols if sy.name in sub}))) if klabel == 'ac' else (lambda x: at(x, sub))
+        ykeys = []
+        for y in ys:
+            nm = y.func.__name__ if isinstance(y, AppliedUndef) else str(y)
+            ykeys.append(unknown_names.get(nm))
+        return {'A': [[val(A[i, j]) for j in range(A.shape[1])] for i in range(A.shape[0])],
+                'b': [val(b[i]) for i in range(b.shape[0])], 'ykeys': ykeys}
+    except Exception as e:
+        return {'error': type(e).__name__ + ': ' + str(e)[:100]}
+
+
 def run_ss(c, case, s0):
     import random
     import lcapy
@@ -483,6 +551,7 @@ def run_ss(c, case, s0):
     ss = c.ss
     A, B, C, D = [sp.Matrix(m) for m in (ss.A, ss.B, ss.C, ss.D)]
     out['A'], out['B'], out['C'], out['D'] = mat_rs(A), mat_rs(B), mat_rs(C), mat_rs(D)
+    out['printed'] = ss_printed(ss)
     out['x'] = [str(x) for x in sp.Matrix(ss.x)]
     out['y'] = [str(x) for x in sp.Matrix(ss.y)]
     out['x0'] = [rs(x) for x in sp.Matrix(ss.x0)]
